@@ -259,6 +259,15 @@ func Formats(c Case) (out Case) {
 				var text string
 				var re *solver.Problem
 				var err error
+				if boolean(e, "solveFirst") && printer != "solver.PBString" {
+					// the Problem value is rendered after a solver built on it has searched: the Problem is still the
+					// problem the parser built
+					s := solver.New(pb)
+					if boolean(e, "assumeFirst") && pb.NbVars > 0 {
+						s.Assume([]solver.Lit{solver.IntToLit(int32(1 + num(e, "seed")%pb.NbVars))})
+					}
+					s.Solve()
+				}
 				switch printer {
 				case "pb.CNF":
 					text = pb.CNF()
